@@ -1715,7 +1715,7 @@ func (env *LEnv) call(ctx context.Context, fun *LVal, args *LVal) *LVal {
 		// builtin returns.
 		prev := env.evalCtx
 		env.evalCtx = ctx
-		val := fn(env, list)
+		val := callBuiltin(fn, env, list, prev)
 		env.evalCtx = prev
 		if val == nil {
 			return env.Errorf("internal error: builtin %s returned nil", env.GetFunName(fun))
@@ -1723,8 +1723,16 @@ func (env *LEnv) call(ctx context.Context, fun *LVal, args *LVal) *LVal {
 		if val.Type == LMarkTerminal {
 			env.Runtime.Stack.Top().Terminal = true
 			termEnv := val.Native.(*LEnv)
+			// Bridge ctx onto the terminal expression's env for the duration
+			// of its evaluation only.  Leaving it set leaked the context of a
+			// finished *Context call into the environment: after
+			// LoadStringContext(ctx, "(if true 1 2)") the root env kept ctx,
+			// so cancelling it later failed an unrelated plain LoadString.
+			prevTerm := termEnv.evalCtx
 			termEnv.evalCtx = ctx
-			return termEnv.eval(ctx, val.Cells[0])
+			r := termEnv.eval(ctx, val.Cells[0])
+			termEnv.evalCtx = prevTerm
+			return r
 		}
 		return val
 	}
@@ -1763,6 +1771,21 @@ func (env *LEnv) call(ctx context.Context, fun *LVal, args *LVal) *LVal {
 		env.Runtime.Stack.Top().Terminal = true
 	}
 	return fenv.eval(ctx, body[len(body)-1])
+}
+
+// callBuiltin invokes a builtin and, should it panic, restores env's bridged
+// context before the panic continues to eval's recover.  Without this a
+// recovered host panic left the finished call's context on the environment.
+func callBuiltin(fn LBuiltin, env *LEnv, args *LVal, prev context.Context) *LVal {
+	ok := false
+	defer func() {
+		if !ok {
+			env.evalCtx = prev
+		}
+	}()
+	val := fn(env, args)
+	ok = true
+	return val
 }
 
 // If fun is a builtin bind returns an LEnv for executing fun and a list of
